@@ -103,6 +103,33 @@ struct Wrap13 {
     template <class Q>
     void unary(R, Q, std::false_type) {}
 
+    // scalar operands whose type differs from the rep: q*s, s*q, q/s, q*=s, q/=s must be the raw mixed-type expressions
+    template <class S>
+    void mixed_scalar(R x, S s) {
+        g_crumb.inst = id; snprintf(g_crumb.what, sizeof g_crumb.what, "mixed R=%s x=%s y=%s", TypeName<R>::name(), val_s(x).c_str(), val_s(s).c_str());
+        auto q = au::make_quantity<U>(x);
+        expect("q*s(mixed)", x, R(0), (q * s).in(U{}), x * s); expect("s*q(mixed)", x, R(0), (s * q).in(U{}), s * x);
+        const bool div_ok = !(std::is_integral<decltype(x / s)>::value && s == S(0));
+        if (div_ok) expect("q/s(mixed)", x, R(0), (q / s).in(U{}), x / s);
+        // compound forms: the library refuses integral rep with floating scalar by design
+        compound(x, s, div_ok, std::integral_constant<bool, !(std::is_integral<R>::value && std::is_floating_point<S>::value)>{});
+    }
+    template <class S> void compound(R x, S s, bool div_ok, std::true_type) {
+        { auto t = au::make_quantity<U>(x); t *= s; R e = x; e *= s; expect("*=(mixed)", x, R(0), t.in(U{}), e); }
+        if (div_ok) { auto t = au::make_quantity<U>(x); t /= s; R e = x; e /= s; expect("/=(mixed)", x, R(0), t.in(U{}), e); }
+    }
+    template <class S> void compound(R, S, bool, std::false_type) {}
+    void mixed_all(R x, uint64_t raw) {
+        // operands kept small enough that no raw signed overflow / float->int conversion UB can occur in the mixed expressions
+        if (!(x == x)) return;
+        long double ax = std::fabs((long double)x); if (!(ax <= 30000)) return;
+        int k = int(raw % 2001) - 1000;
+        mixed_scalar<int>(x, k); mixed_scalar<unsigned>(x, unsigned(k < 0 ? -k : k)); mixed_scalar<long long>(x, (long long)k * 7);
+        mixed_scalar<unsigned short>(x, (unsigned short)(k < 0 ? -k : k)); mixed_scalar<signed char>(x, (signed char)(k % 100));
+        mixed_scalar<double>(x, double(k) / 10); mixed_scalar<float>(x, float(k) / 8); mixed_scalar<long double>(x, (long double)k / 3);
+        mixed_scalar<double>(x, 0.1); mixed_scalar<unsigned>(x, 2u); mixed_scalar<int>(x, 300); mixed_scalar<int>(x, -1);
+    }
+
     // ---- value generation
     static R special(uint64_t i) {
         if (std::is_floating_point<R>::value) {
@@ -131,7 +158,7 @@ struct Wrap13 {
         Wrap13 *me = static_cast<Wrap13 *>(self);
         R x = draw(d[0], d[1]), y = draw(d[2], d[3]);
         uint64_t before = me->st.fails;
-        me->roundtrip(x); me->pair(x, y);
+        me->roundtrip(x); me->pair(x, y); me->mixed_all(x, d[3]);
         return me->st.fails == before;
     }
     void run() {
@@ -139,13 +166,15 @@ struct Wrap13 {
         if (g_args.one) {
             R x = parse_val<R>(g_args.one_vals.at(0)), y = parse_val<R>(g_args.one_vals.at(1));
             if (g_args.one_vals.size() > 2) { x = from_bits(strtoull(g_args.one_vals[2].c_str(), nullptr, 0)); y = from_bits(strtoull(g_args.one_vals[3].c_str(), nullptr, 0)); }
-            roundtrip(x); roundtrip(y); pair(x, y); printf("AUVONE %s\n", failed ? "fail" : "ok"); return;
+            roundtrip(x); roundtrip(y); pair(x, y);
+            for (uint64_t raw = 0; raw <= 2000 && !failed; ++raw) mixed_all(x, raw);   // the mixed-type scalar set is small: replay all of it
+            printf("AUVONE %s\n", failed ? "fail" : "ok"); return;
         }
         bool exhaustive = false;
         if (sizeof(R) == 1) {
             exhaustive = true;
             for (int a = int(std::numeric_limits<R>::lowest()); a <= int(std::numeric_limits<R>::max()) && !failed; ++a) {
-                roundtrip(R(a));
+                roundtrip(R(a)); mixed_all(R(a), uint64_t(a) * 2654435761u);
                 for (int b = int(std::numeric_limits<R>::lowest()); b <= int(std::numeric_limits<R>::max()) && !failed; ++b) pair(R(a), R(b));
             }
         } else {
@@ -156,7 +185,8 @@ struct Wrap13 {
                 for (uint64_t b = g_args.shard; b < (1ull << 32) && !failed; b += step * g_args.nshards) roundtrip(from_bits(b));
                 for (uint64_t e = 0; e < 256 && !failed; ++e) for (uint64_t m = 0; m < 23; ++m) { roundtrip(from_bits((e << 23) | (1ull << m))); roundtrip(from_bits((1ull << 31) | (e << 23) | (1ull << m))); }
             }
-            for (uint64_t i = 0; i < 16 && !failed; ++i) for (uint64_t j = 0; j < 16 && !failed; ++j) { roundtrip(special(i)); pair(special(i), special(j)); }
+            for (uint64_t i = 0; i < 16 && !failed; ++i) for (uint64_t j = 0; j < 16 && !failed; ++j) { roundtrip(special(i)); pair(special(i), special(j)); mixed_all(special(i), j * 977 + i); }
+            for (int v = -120; v <= 120 && !failed; ++v) mixed_all(R(v), uint64_t(v + 500) * 40503u);
             if (!failed) { uint64_t out[4]; rc_run(id, 4, &Wrap13::prop, this, out); }
         }
         st.inst = id; st.exhaustive = exhaustive; st.nontrivial = dn.n;
